@@ -255,7 +255,7 @@ inline sim::Plan genPlan(uint64_t seed, const std::string &profile, bool thoroug
     p.cfg["force"] = force;
     p.cfg["nomodel"] = forceMix;
     p.cfg["exact"] = ((profile == "C05" && r.pm(300)) || (profile == "C06" && r.pm(400))) ? 0 : 1;
-    p.cfg["orphans"] = (profile == "C07" && r.pm(500)) ? 1 : 0;
+    p.cfg["orphans"] = ((profile == "C07" && r.pm(500)) || (profile == "C16" && r.pm(300))) ? 1 : 0;
     p.cfg["nonneg"] = (profile == "C17" || profile == "C18" || profile == "C07") ? (r.pm(700) ? 1 : 0) : 0;
     int maxOps = thorough ? 120 : 40;
     int nops = 1 + (int)r.below((uint64_t)(r.pm(700) ? std::min(maxOps, 24) : maxOps));
@@ -265,7 +265,7 @@ inline sim::Plan genPlan(uint64_t seed, const std::string &profile, bool thoroug
     if (profile == "C01" || profile == "C02" || profile == "C03" || profile == "C04" || profile == "C05") {
         pReject = rate({0, 30, 100}); pSnap = rate({0, 30, 60}); pPersist = rate({0, 30, 60}); pReplica = rate({0, 0, 20});
         pAlg = rate({0, 20, 40}); // const operations (searches, conversions, subgraphs, printing) between mutations: must change nothing
-    } else if (profile == "C06") { pReplica = rate({100, 200, 300}); pSnap = rate({40, 80, 150}); pPersist = rate({0, 30}); pAlg = rate({0, 20}); }
+    } else if (profile == "C06") { pReplica = rate({100, 200, 300}); pSnap = rate({40, 80, 150}); pPersist = rate({0, 30}); pAlg = rate({0, 20}); pReject = rate({0, 30, 60}); }
     else if (profile == "C07") { pReject = rate({300, 400, 500}); pSnap = rate({0, 30}); }
     else if (profile == "C16") { pSnap = rate({0, 20}); pAlg = rate({0, 20}); }
     else if (profile == "C17") { pAlg = rate({100, 200, 300}); pSnap = rate({20, 50}); pPersist = rate({30, 60}); pReplica = rate({0, 30}); pIo = rate({0, 40, 80}); }
@@ -317,7 +317,8 @@ inline sim::Plan genPlan(uint64_t seed, const std::string &profile, bool thoroug
         if (t < (unsigned)pReject) {
             o.k = "reject"; o.x = (int64_t)r.below(256); o.a = (int64_t)r.below(1024); o.b = (int64_t)r.below(1024); o.y = (int64_t)r.below(16);
         } else if ((t -= (unsigned)pReject) < (unsigned)pSnap) {
-            o.k = r.pm(500) ? "copy" : "assign"; o.x = (int64_t)r.below(1 << 20); o.a = (int64_t)r.below(64); o.b = (int64_t)r.below(64);
+            o.k = r.pm(500) ? "copy" : "assign"; o.x = (int64_t)r.below(1 << 20); o.a = (int64_t)r.below(128); o.b = (int64_t)r.below(128);
+            if (pNoSweep && r.pm((unsigned)pNoSweep)) o.y = F_NOSWEEP;
         } else if ((t -= (unsigned)pSnap) < (unsigned)pPersist) {
             if (!templ) { --i; pPersist = 0; continue; }
             o.k = "persist"; o.x = (int64_t)r.below(2);
@@ -369,6 +370,7 @@ inline sim::Plan genPlan(uint64_t seed, const std::string &profile, bool thoroug
             prev = o;
             if (pNoSweep && r.pm((unsigned)pNoSweep)) o.y |= F_NOSWEEP;
             if (forceMix && (o.k == "add" || o.k == "addmul") && r.pm(350)) o.y |= F_FORCE;
+            if ((kind == MULTI || kind == WEIGHTED) && r.pm(force ? 60 : 15)) o.k = "aslabeled";
             if (p.c("orphans") && kind == LABELED && r.pm(120)) o.k = "orphan";
         }
         p.ops.push_back(o);
